@@ -1,6 +1,6 @@
 //! Map history engine binary (C01, C02, C05, C09, C10, C12, C15, C19 — Map side).
 use engines::common::Ctx;
-use engines::fam::{AlignF, Copyf, Large, NoDrop, Raw, TinyF, Track, WordF, Zst};
+use engines::fam::{AlignF, K12F, OddF, Copyf, Large, NoDrop, Raw, TinyF, Track, WordF, Zst};
 use engines::maphist::{history, required_rows};
 
 fn main() {
@@ -19,6 +19,8 @@ fn main() {
             "tiny" => &[1, 3, 8],
             "word" => &[0, 2, 8],
             "align" => &[1, 2, 5],
+            "odd" => &[2, 4, 8, 16],
+            "k12" => &[1, 3, 4, 8],
             _ => &[0, 1, 2, 3, 4, 8],
         };
         let usable: Vec<usize> = caps.iter().copied().filter(|c| supported.contains(c)).collect();
@@ -33,6 +35,8 @@ fn main() {
             "tiny" => engines::dispatch_n!(n, [1, 3, 8], history, TinyF, (cx, hist, rng, max_steps)),
             "word" => engines::dispatch_n!(n, [0, 2, 8], history, WordF, (cx, hist, rng, max_steps)),
             "align" => engines::dispatch_n!(n, [1, 2, 5], history, AlignF, (cx, hist, rng, max_steps)),
+            "odd" => engines::dispatch_n!(n, [2, 4, 8, 16], history, OddF, (cx, hist, rng, max_steps)),
+            "k12" => engines::dispatch_n!(n, [1, 3, 4, 8], history, K12F, (cx, hist, rng, max_steps)),
             "raw" => engines::dispatch_n!(n, [0, 1, 2, 3, 4, 8], history, Raw, (cx, hist, rng, max_steps)),
             "large" => engines::dispatch_n!(n, [1, 2, 4], history, Large, (cx, hist, rng, max_steps)),
             "zst" => engines::dispatch_n!(n, [0, 1, 2, 3, 4, 8], history, Zst, (cx, hist, rng, max_steps)),
